@@ -46,6 +46,10 @@ func (o *orC11) onZK(e *ZKEvent) {
 		// (2) marked hosts are never published (unless the recorded master itself)
 		for _, h := range parseStrList(e.Data) {
 			if m.recovery[h] && h != m.master {
+				// a mark that appeared while this pass was under way may not have been seen by it
+				if it := m.iters[e.Inc]; it != nil && it.open && m.recoverySince[h] >= it.startT {
+					continue
+				}
 				// the switchover publishes the list before it records the new master: tolerate the new master-to-be
 				if it := m.iters[e.Inc]; it != nil && it.open && m.switchRaw != "" {
 					sv := s.mysql.servers[h]
